@@ -1472,6 +1472,11 @@ func (e *Engine) model(st *state, fr *frame, in ssa.CallInstruction, fn *ssa.Fun
 		if strings.HasPrefix(m, "Uint") && len(args) == 2 {
 			if need := map[string]int64{"Uint16": 2, "Uint32": 4, "Uint64": 8}[m]; need > 0 {
 				e.addEvent(st, fr, &Event{Kind: EvPanicSite, Mode: "getuint", Args: []*Val{args[1], mkInt(need)}}, in)
+				// a narrower number read into one end of a zeroed local array and taken as a wider one: the zero bytes on the
+				// high-order side extend it (`io.ReadFull(buf, scratch[8-n:]); BigEndian.Uint64(scratch[:])`)
+				if w := widenedRead(st, args[1], need, ord); w != nil {
+					return one(st, &Val{Op: "conv", Name: "convert", Args: []*Val{w}, Type: fn.Signature.Results().At(0).Type()}), true
+				}
 			}
 		}
 		// reading / appending methods: pure; the receiver (an empty struct) is dropped, slices are taken by content
@@ -1963,6 +1968,99 @@ func stagedInts(src *Val) []*Val {
 			}
 			return pre
 		}
+	}
+	return nil
+}
+
+// widenedRead: v is the whole of a local [need]byte array that is zero except for one run of bytes a read delivered,
+// and that run sits at the low-order end for the byte order ord (the end of the array for BE, its start for LE): the
+// number those bytes are in that order (ByteOrder.UintW of the run, or its only byte).
+func widenedRead(st *state, v *Val, need int64, ord string) *Val {
+	s := stripCT(v)
+	if s == nil || s.Op != "slice" || len(s.Args) < 3 || s.Args[1] != nil || s.Args[2] != nil {
+		return nil
+	}
+	base := stripCT(s.Args[0])
+	if base == nil || base.Op != "alloc" {
+		return nil
+	}
+	pt, isP := base.Type.(*types.Pointer)
+	if !isP {
+		return nil
+	}
+	arr, isA := pt.Elem().Underlying().(*types.Array)
+	if !isA || arr.Len() != need {
+		return nil
+	}
+	if _, has := st.content[base.Key()]; has {
+		return nil
+	}
+	// exactly one part of the array has content: a slice with constant bounds that a read filled
+	var run *Val
+	var lo, hi int64
+	parts := 0
+	pfx := "slice(" + base.Key() + ","
+	for k := range st.content {
+		if strings.HasPrefix(k, pfx) {
+			parts++
+		}
+	}
+	if parts != 1 {
+		return nil
+	}
+	found := false
+	for l := int64(0); l < need; l++ {
+		for h := l + 1; h <= need; h++ {
+			var loV, hiV *Val
+			if l != 0 {
+				loV = mkInt(l)
+			}
+			if h != need {
+				hiV = mkInt(h)
+			}
+			keys := []string{(&Val{Op: "slice", Args: []*Val{base, loV, hiV, nil}}).Key()}
+			if l == 0 {
+				keys = append(keys, (&Val{Op: "slice", Args: []*Val{base, mkInt(0), hiV, nil}}).Key())
+			}
+			if h == need {
+				keys = append(keys, (&Val{Op: "slice", Args: []*Val{base, loV, mkInt(need), nil}}).Key())
+			}
+			for _, key := range keys {
+				if c, ok := st.content[key]; ok {
+					if cv := stripCT(c); cv != nil && cv.Op == "wire" {
+						run, lo, hi, found = cv, l, h, true
+					}
+				}
+			}
+		}
+	}
+	if !found {
+		return nil
+	}
+	// no element of the array was stored to by hand
+	for _, me := range st.mem {
+		if me.Addr != nil && me.Addr.Op == "index" && me.Addr.Args[0].Key() == base.Key() {
+			return nil
+		}
+	}
+	w := hi - lo
+	switch {
+	case ord == "BE" && hi == need:
+	case ord == "LE" && lo == 0:
+	default:
+		return nil
+	}
+	if n, isC := affOf(mkLen(run)).IsConst(); !isC || n != w {
+		return nil
+	}
+	name := map[string]string{"BE": "(encoding/binary.bigEndian).Uint", "LE": "(encoding/binary.littleEndian).Uint"}[ord]
+	switch w {
+	case 1:
+		return &Val{Op: "elem", Args: []*Val{run, mkInt(0)}, Type: types.Typ[types.Uint8]}
+	case 2:
+		return &Val{Op: "call", Name: name + "16", Args: []*Val{run}, Type: types.Typ[types.Uint16]}
+	case 4:
+		return &Val{Op: "call", Name: name + "32", Args: []*Val{run}, Type: types.Typ[types.Uint32]}
 	}
 	return nil
 }
